@@ -265,6 +265,16 @@ class Discharger:
             return None, "bounds", "indexing with a run-time index in %s" % fn
         if kind == "assert":
             return None, "assert", "%s in %s" % (what, fn)
+        if what.endswith("::assert") and "winnow" in what:
+            # winnow's assertion error (a panic in debug builds) made by the crate itself: `OPTION.ok_or_else(|| ErrMode::assert(..))`
+            # is reached exactly when OPTION is None — the obligation of `OPTION.unwrap()`
+            sites = find_all(f.body, lambda n: n.get("k") == "mcall" and n["m"] in ("ok_or_else", "unwrap_or_else") and len(n["args"]) == 1 and n["args"][0].get("k") == "closure" and find_all(n["args"][0], lambda x: x.get("k") == "call" and x["f"].get("k") == "path" and x["f"]["segs"][-1] == "assert"))
+            alls = find_all(f.body, lambda x: x.get("k") == "call" and x["f"].get("k") == "path" and x["f"]["segs"][-1] == "assert" and len(x["f"]["segs"]) >= 2)
+            if sites and len(alls) == len(sites):
+                res = [self.unwrap_node(f, {"k": "mcall", "l": st_.get("l"), "m": "unwrap", "recv": st_["recv"], "targs": [], "args": []}) for st_ in sites]
+                bad = [r_ for r_ in res if r_[0] is not True]
+                return bad[0] if bad else res[0]
+            return None, "census", "winnow's assertion error (panics in debug builds) is constructed in %s outside the recognised `option.ok_or_else(|| ErrMode::assert(..))` form" % fn
         if re.search(r"^<(std::vec::Vec|\[)", what) and "as std::ops::Index<" in what and what.endswith("::index"):
             r_ = self.index_under_length_test(f)
             if r_ is not None:
